@@ -23,7 +23,7 @@ Proof.
      destruct (subject_qualifies is_space nm); cbn [negb fst]; [|reflexivity];
      destruct (almost_full cap (length (cache s))); [|reflexivity];
      destruct (load_from_storage (x_storage e) (x_broken e) nm) as [x|]; [|reflexivity];
-     destruct (sd_fresh x); reflexivity).
+     cbv zeta; destruct (sd_servable x); reflexivity).
 Qed.
 
 Lemma load_from_storage_key st br nm x : load_from_storage st br nm = Some x -> exists k, alookup k st = Some x.
@@ -134,8 +134,9 @@ Section Generic.
   Lemma lookup_x_cases conn s cap cfg sni ip e c s' :
     lookup_x conn s cap cfg sni ip e = (ROk c, s') ->
     (exists b v, from_cache_x conn s cfg sni ip = Some (c, b, v)) \/
-    (exists x, load_ok cap s cfg ip e x /\ sd_fresh x = true /\ c = sd_cert x /\
-               s' = add_cert cap c (x_victim e) s /\
+    (exists x, load_ok cap s cfg ip e x /\ sd_servable x = true /\ c = sd_cert x /\
+               s' = (if sd_fresh x then add_cert cap c (x_victim e) s
+                     else remove_cert c (add_cert cap c (x_victim e) s)) /\
                forall c' v, from_cache_x conn s cfg sni ip <> Some (c', true, v)).
   Proof.
     unfold Model.lookup_x.
@@ -146,7 +147,7 @@ Section Generic.
         destruct (subject_qualifies is_space nm) eqn:Eq; cbn [negb]; [|discriminate].
         destruct (almost_full cap (length (cache s))) eqn:Ea.
         * destruct (load_from_storage (x_storage e) (x_broken e) nm) as [x|] eqn:El.
-          -- destruct (sd_fresh x) eqn:Efr.
+          -- cbv zeta. destruct (sd_servable x) eqn:Efr.
              ++ intros H; injection H as <- <-. right. exists x. split; [exists nm; auto|].
                 split; [exact Efr|]. split; [reflexivity|]. split; [reflexivity|]. intros c' v'; congruence.
              ++ cbn [defaulted_result]. intros H; injection H as <- _. left; eauto.
@@ -156,7 +157,7 @@ Section Generic.
       destruct (subject_qualifies is_space nm) eqn:Eq; cbn [negb]; [|discriminate].
       destruct (almost_full cap (length (cache s))) eqn:Ea; [|discriminate].
       destruct (load_from_storage (x_storage e) (x_broken e) nm) as [x|] eqn:El; [|discriminate].
-      destruct (sd_fresh x) eqn:Efr; [|discriminate].
+      cbv zeta. destruct (sd_servable x) eqn:Efr; [|discriminate].
       intros H; injection H as <- <-. right. exists x. split; [exists nm; auto|].
       split; [exact Efr|]. split; [reflexivity|]. split; [reflexivity|]. intros c' v'; congruence.
   Qed.
@@ -180,8 +181,9 @@ Section Generic.
                if negb (subject_qualifies is_space nm) then (RErr, s)
                else match (if almost_full cap (length (cache s)) then load_from_storage (x_storage e) (x_broken e) nm else None) with
                     | Some x => let s1 := add_cert cap (sd_cert x) (x_victim e) s in
-                                if sd_fresh x then (ROk (sd_cert x), s1)
-                                else (defaulted_result other, remove_cert (sd_cert x) s1)
+                                let s2 := if sd_fresh x then s1 else remove_cert (sd_cert x) s1 in
+                                if sd_servable x then (ROk (sd_cert x), s2)
+                                else (defaulted_result other, s2)
                     | None => (defaulted_result other, s)
                     end
            end) = s \/
@@ -192,8 +194,9 @@ Section Generic.
                if negb (subject_qualifies is_space nm) then (RErr, s)
                else match (if almost_full cap (length (cache s)) then load_from_storage (x_storage e) (x_broken e) nm else None) with
                     | Some x => let s1 := add_cert cap (sd_cert x) (x_victim e) s in
-                                if sd_fresh x then (ROk (sd_cert x), s1)
-                                else (defaulted_result other, remove_cert (sd_cert x) s1)
+                                let s2 := if sd_fresh x then s1 else remove_cert (sd_cert x) s1 in
+                                if sd_servable x then (ROk (sd_cert x), s2)
+                                else (defaulted_result other, s2)
                     | None => (defaulted_result other, s)
                     end
            end) =
@@ -203,7 +206,7 @@ Section Generic.
       destruct (subject_qualifies is_space nm) eqn:Eq; cbn [negb]; [|left; reflexivity].
       destruct (almost_full cap (length (cache s))) eqn:Ea; [|left; reflexivity].
       destruct (load_from_storage (x_storage e) (x_broken e) nm) as [x|] eqn:El; [|left; reflexivity].
-      right. exists x. split; [exists nm; auto|]. cbv zeta. destruct (sd_fresh x); reflexivity. }
+      right. exists x. split; [exists nm; auto|]. cbv zeta. destruct (sd_servable x); destruct (sd_fresh x); reflexivity. }
     destruct other as [[[c0 b] v]|]; [destruct b; [left; reflexivity | exact Hmain] | exact Hmain].
   Qed.
 
@@ -344,7 +347,7 @@ Section Policy.
        Forall (fun q => sel_policy sup valid p s (fst q) = None) pre /\
        sel_policy sup valid p s v = Some c /\
        (p <> PDefault -> In c (choices_for s v))) \/
-    (exists x, load_ok lower is_space cap s cfg ip e x /\ sd_fresh x = true /\ c = sd_cert x).
+    (exists x, load_ok lower is_space cap s cfg ip e x /\ sd_servable x = true /\ c = sd_cert x).
   Proof.
     intros HI H. apply lookup_x_cases in H. destruct H as [(b & v & Hf)|(x & Hl & Hfr & Hc & _)]; [left | right; eauto].
     rewrite from_cache_x_first_tried in Hf. apply first_tried_some in Hf.
@@ -381,7 +384,7 @@ Section DefaultX.
     (almost_full cap (length (cache s)) = true /\
      exists nm x, hello_name lower is_space cfg ip (x_idna e) = Some nm /\
                   subject_qualifies is_space nm = true /\
-                  load_from_storage (x_storage e) (x_broken e) nm = Some x /\ sd_fresh x = true /\ c = sd_cert x /\
+                  load_from_storage (x_storage e) (x_broken e) nm = Some x /\ sd_servable x = true /\ c = sd_cert x /\
                   exists san, In san (c_names c) /\ covers san nm).
   Proof.
     intros HI Hwf H.
